@@ -442,7 +442,8 @@ def exec (sc : Scripts) : Nat → Task → World → R
             (exec sc f (.hook a.2 .create none) w).andThen fun w _ =>
               if (w.c.objs a.2).destructed then { w := w, val := none } else { w := w, val := some a.2 }
     | .move item dest =>
-      if (w.c.objs item).destructed then raise w errMoveDested
+      if ¬ (item < w.c.n ∧ dest < w.c.n) then crashR w "move_object: not an object"
+      else if (w.c.objs item).destructed then raise w errMoveDested
       else
         match superWalk w.c item (w.c.n + 1) (some dest) with
         | .freed => crashR w "move_object super walk"
@@ -496,7 +497,9 @@ def exec (sc : Scripts) : Nat → Task → World → R
           | none => []
           | some s => s :: (w.c.objs s).contains
         let nm := (w.c.objs ob).name
-        if anyFreed w.c inv ∨ anyFreed w.c (w.c.ot (hashN nm)) ∨ anyFreed w.c w.c.ol
+        -- the unlink block relies on `ob` being a live object (checked by the callers, re-checked after every hook)
+        if ¬ (ob < w.c.n ∧ (w.c.objs ob).destructed = false) then crashR w "destruct_object: unlink of a destructed object"
+        else if anyFreed w.c inv ∨ anyFreed w.c (w.c.ot (hashN nm)) ∨ anyFreed w.c w.c.ol
             ∨ anyFreed w.c (match (w.c.objs ob).living with | none => [] | some s => w.c.lv (lhash s)) then
           crashR w "destruct_object unlink"
         else { w := { w with c := finishDestruct w.c ob } }
